@@ -226,6 +226,17 @@ func runEntropy(out string, thorough bool) error {
 		return err
 	}
 	emit("concurrentServer", "DeriveFromSibling", how, ok, map[string]any{"logins": n2, "workers": workers})
+	// W4b relations between the values of logins answered one after the other by a real server
+	seqLogins, err := serverLogins(tmp, 400)
+	if err != nil {
+		return err
+	}
+	ok, how = witnessEncodedPublic(seqLogins)
+	emit("encodedPublic", "DeriveFromPublic", how, ok, map[string]any{"logins": len(seqLogins)})
+	ok, how = witnessEncodedTime(seqLogins)
+	emit("encodedTime", "DeriveFromTimeSeed", how, ok, map[string]any{"logins": len(seqLogins)})
+	ok, how = witnessHashSuccessor(seqLogins)
+	emit("hashSuccessor", "DeriveFromSibling", how, ok, map[string]any{"logins": len(seqLogins)})
 	// W5 slow entropy source
 	derived, applies, what := witnessSlowSource()
 	emit("slowSource", "DeriveWhenSourceSlow", what, derived, map[string]any{"verdictApplies": applies})
